@@ -1,5 +1,6 @@
 import SfVerif.Model.NanBox
 import SfVerif.Lemmas.Bits
+import SfVerif.Lemmas.GenFnsNanBox
 /-! C06 — NaN-boxed values are lossless, unambiguous, total and laid out as documented. -/
 namespace SfVerif.Props.C06
 open SfVerif SfVerif.Gen SfVerif.NanBox
@@ -139,5 +140,12 @@ theorem C06_box_is_nan (ptr len tag : Nat) (ht : tag < 16) :
 /-- non-vacuity: a concrete 20000-byte string handle on the 32-bit layout -/
 example : tryDecode 32 (string 32 0x1234 20000) = .ok (.string 0x1234 16383) := by
   have := (C06_roundtrip32 0x1234 20000 (by decide)).1; simpa using this
+
+/-- **tie by translation**: the model's `encode` and `number` are equal to the definitions
+    regenerated from the bodies of `NanBox::encode` / `NanBox::number` in core/src/read.rs -/
+theorem C06_model_is_the_source_text (w ptr len tag bits : Nat) :
+    nanbox_encode w ptr len tag = NanBox.encode w ptr len tag ∧
+    (F64.isNaN bits = false → NanBox.number w bits = some (nanbox_number w bits)) :=
+  ⟨gen_encode_eq w ptr len tag, gen_number_eq w bits⟩
 
 end SfVerif.Props.C06
